@@ -150,6 +150,10 @@ def main():
         pid = p["id"]
         if pid in CHECKS:
             tech, text, note, ref = CHECKS[pid]
+            if pid in ("C01", "C02", "C05", "C06", "C07", "C13", "C16", "C17"):
+                tech += "; thorough tier adds a coverage-guided libFuzzer campaign whose target decodes bytes with the same generators and runs this property's oracle in-target"
+            if pid == "C04":
+                tech += "; thorough tier adds the coverage-guided byte-level libFuzzer target parse_total"
             checks.append({
                 "property_id": pid,
                 "quick_cmd": f"./run.sh {pid} quick",
@@ -176,7 +180,7 @@ def main():
         "engines": [
             {"name": "ohv", "path": "harness", "serves_properties": sorted(CHECKS), "kind_free_text": "Rust harness: choice-sequence generators driven by proptest (seeded, 64 shards, shrinking) and exhaustive enumerators; reference models and differential/metamorphic oracles; replay files"},
             {"name": "c12.py", "path": "py/c12.py", "serves_properties": ["C12"], "kind_free_text": "Hypothesis driver for the Python extension, talking to `ohv py-oracle`"},
-            {"name": "libFuzzer", "path": "fuzz", "serves_properties": ["C04"], "kind_free_text": "cargo-fuzz targets parse_total and consistency (thorough tier of C04), oracles shared with the harness"},
+            {"name": "libFuzzer", "path": "fuzz", "serves_properties": ["C01", "C02", "C04", "C05", "C06", "C07", "C13", "C16", "C17"], "kind_free_text": "cargo-fuzz targets: parse_total (byte level, C04) and consistency (choice-sequence decoding, oracle pinned per property with VERIF_FUZZ_ORACLE); thorough tiers only; oracles shared with the harness"},
         ],
         "checks": checks,
         "not_applicable": not_applicable,
